@@ -5,7 +5,8 @@
 //!       every input line {"id":N,"init":[[..],..],"ops":[{"op":..,"i":..,"x":[..]},..]} is replayed
 //!       twice in lock-step: on a chain of borrowed chunks (`CowBytes::Temporary`, key "T") and on a
 //!       chain of owned chunks (`CowBytes::Static`, key "S").  Every operation and every accessor runs
-//!       under `catch_unwind`.  After a panic of an operation the replay of that sequence stops.
+//!       under `catch_unwind`.  After a panic of an operation the replay of that sequence stops
+//!       ("stop":"panic"); it also stops once the observed value is visibly degenerate (see `degenerate`).
 //!   chain_vec random <seed> <count> <steps> <out.ndjson> <profile>
 //!       seeded random sequences (arguments biased to the boundaries and one past), logged the same
 //!       way; the generated operations are written into the "seq" lines so they can be replayed.
@@ -197,8 +198,11 @@ fn js_obs(s: &mut String, o: &Obs) {
     s.push('}');
 }
 
-/// Is the observed value visibly degenerate?  Only used by the RANDOM GENERATOR to decide that going
-/// on with this value carries no information (the line itself is logged and judged by TLC).
+/// Is the observed value visibly degenerate (an accessor panicked, an empty chunk is stored, the
+/// reported length is not the sum of the chunk lengths)?  Only used to decide that going on with this
+/// value carries no information: the replay of the sequence stops ("stop":"degenerate").  This is not
+/// a verdict: the event showing the degenerate value is logged like any other and judged by TLC
+/// (every degenerate value violates WF of spec/Chain.tla, so the line is rejected there).
 fn degenerate(o: &Obs) -> bool {
     !o.accp.is_empty() || o.ch.iter().any(Vec::is_empty) || o.len != o.ch.iter().map(Vec::len).sum::<usize>() as i64
 }
@@ -316,19 +320,26 @@ struct SeqOut {
 }
 
 /// Build both chains, run the operations in lock-step, log every step.
-/// `stop_degenerate`: (random generator only) give up on a visibly degenerate value.
-fn run_seq(seq: &SeqRec, prof: &str, sink: &mut Sink, stop_degenerate: bool) -> SeqOut {
-    let mut out = SeqOut { seq: seq.id, evs: Vec::new(), stop: "end", done: 0 };
+/// `stop_degenerate`: give up on a visibly degenerate value (after logging it).
+fn run_seq<'a>(
+    id: u64,
+    init: &'a [Vec<u8>],
+    next_op: &mut dyn FnMut(&Obs) -> Option<&'a OpRec>,
+    prof: &str,
+    sink: &mut Sink,
+    stop_degenerate: bool,
+) -> SeqOut {
+    let mut out = SeqOut { seq: id, evs: Vec::new(), stop: "end", done: 0 };
     let mut s = String::with_capacity(1024);
     let variants = [Variant::Temporary, Variant::Static];
-    let mut chains: Vec<LongChain<'_>> = Vec::new();
+    let mut chains: Vec<LongChain<'a>> = Vec::new();
     let mut obs: Vec<Obs> = Vec::new();
     // construction: new() + push of every initial chunk
     let mut init_ok = [true, true];
     for (vi, &v) in variants.iter().enumerate() {
         let mut c = LongChain::new();
         let r = catch_unwind(AssertUnwindSafe(|| {
-            for ch in &seq.init {
+            for ch in init {
                 c.push(mk(v, ch));
             }
         }));
@@ -338,7 +349,7 @@ fn run_seq(seq: &SeqRec, prof: &str, sink: &mut Sink, stop_degenerate: bool) -> 
     }
     s.clear();
     let _ = write!(s, "\"ev\":\"init\",\"prof\":\"{prof}\",\"init\":");
-    js_chunks(&mut s, &seq.init);
+    js_chunks(&mut s, init);
     for (vi, key) in ["T", "S"].iter().enumerate() {
         let _ = write!(s, ",\"{key}\":{{\"out\":\"{}\",\"a\":", if init_ok[vi] { "ok" } else { "panic" });
         js_obs(&mut s, &obs[vi]);
@@ -349,7 +360,7 @@ fn run_seq(seq: &SeqRec, prof: &str, sink: &mut Sink, stop_degenerate: bool) -> 
         out.stop = "panic";
         return out;
     }
-    for op in &seq.ops {
+    while let Some(op) = next_op(&obs[0]) {
         let mut rets = Vec::new();
         let mut after = Vec::new();
         for (vi, &v) in variants.iter().enumerate() {
@@ -471,39 +482,58 @@ fn replay(path: &str, out: &str, prof: &str) {
         eprintln!("cannot open {path}: {e}");
         std::process::exit(3)
     });
-    let mut seqs = Vec::new();
-    for (n, line) in BufReader::new(f).lines().enumerate() {
-        let line = line.expect("read");
-        if line.trim().is_empty() {
-            continue;
-        }
-        let v: Value = serde_json::from_str(&line).unwrap_or_else(|e| {
-            eprintln!("bad json at line {}: {e}", n + 1);
-            std::process::exit(3)
-        });
-        seqs.push(parse_seq(&v, n as u64 + 1));
-    }
     let threads = std::thread::available_parallelism().map(|n| n.get()).unwrap_or(4).clamp(1, 8);
-    let per = seqs.len().div_ceil(threads).max(1);
     let mut w = Writer::new(out);
-    let results: Vec<(Sink, Vec<SeqOut>)> = std::thread::scope(|sc| {
-        let hs: Vec<_> = seqs
-            .chunks(per)
-            .map(|part| {
-                sc.spawn(move || {
-                    let mut sink = Sink::default();
-                    let outs: Vec<SeqOut> = part.iter().map(|s| run_seq(s, prof, &mut sink, false)).collect();
-                    (sink, outs)
+    let mut total = 0usize;
+    let mut lines = BufReader::with_capacity(1 << 20, f).lines();
+    let mut n = 0u64;
+    loop {
+        // batches keep the memory bounded for the multi-million sequence files of the thorough tier
+        let mut seqs = Vec::new();
+        for line in lines.by_ref() {
+            let line = line.expect("read");
+            n += 1;
+            if line.trim().is_empty() {
+                continue;
+            }
+            let v: Value = serde_json::from_str(&line).unwrap_or_else(|e| {
+                eprintln!("bad json at line {n}: {e}");
+                std::process::exit(3)
+            });
+            seqs.push(parse_seq(&v, n));
+            if seqs.len() >= 200_000 {
+                break;
+            }
+        }
+        if seqs.is_empty() {
+            break;
+        }
+        let per = seqs.len().div_ceil(threads).max(1);
+        let results: Vec<(Sink, Vec<SeqOut>)> = std::thread::scope(|sc| {
+            let hs: Vec<_> = seqs
+                .chunks(per)
+                .map(|part| {
+                    sc.spawn(move || {
+                        let mut sink = Sink::default();
+                        let outs: Vec<SeqOut> = part
+                            .iter()
+                            .map(|s| {
+                                let mut it = s.ops.iter();
+                                run_seq(s.id, &s.init, &mut |_| it.next(), prof, &mut sink, true)
+                            })
+                            .collect();
+                        (sink, outs)
+                    })
                 })
-            })
-            .collect();
-        hs.into_iter().map(|h| h.join().expect("worker")).collect()
-    });
-    let n = seqs.len();
-    for (sink, outs) in results {
-        w.merge(sink, outs.into_iter().map(|o| (o, None)).collect());
+                .collect();
+            hs.into_iter().map(|h| h.join().expect("worker")).collect()
+        });
+        total += seqs.len();
+        for (sink, outs) in results {
+            w.merge(sink, outs.into_iter().map(|o| (o, None)).collect());
+        }
     }
-    w.finish("replay", n);
+    w.finish("replay", total);
 }
 
 // ------------------------------------------------------------------------------------------------
@@ -554,22 +584,32 @@ fn random(seed: u64, count: u64, steps: usize, out: &str, prof: &str) {
     let mut w = Writer::new(out);
     let mut nseq = 0usize;
     let mut next_byte = 0u8;
-    for id in 1..=count {
-        // The generator needs the current value to aim at its boundaries, so generation and execution
-        // are interleaved: each operation is chosen from the last observation of the real (borrowed)
-        // chain, executed as a one-operation extension, and the whole sequence is then re-run once
-        // from scratch for the log (the run is deterministic).
-        let mut rec = SeqRec { id, init: Vec::new(), ops: Vec::new() };
+    // `count` sequences of up to `steps` operations are wanted; a sequence that ends early (an operation
+    // panicked, the value became degenerate) is followed by further sequences until the budget of
+    // count * steps operations is used (at most 50 * count sequences).
+    let budget = count as usize * steps;
+    let mut used = 0usize;
+    let mut id = 0u64;
+    while used < budget && id < 50 * count {
+        id += 1;
         // initial chain: 0..3 chunks of 1..4 bytes
+        let mut init: Vec<Vec<u8>> = Vec::new();
         for _ in 0..r.below(4) {
             let n = 1 + r.below(4) as usize;
-            rec.init.push((0..n).map(|_| { next_byte = next_byte.wrapping_add(1); next_byte }).collect());
+            init.push((0..n).map(|_| { next_byte = next_byte.wrapping_add(1); next_byte }).collect());
         }
-        // model-free shadow of the shape, taken from observation of a scratch run
-        let mut scratch = Sink::default();
-        let mut shape: Vec<Vec<u8>> = rec.init.clone();
-        for _ in 0..steps {
+        // The generator aims at the boundaries of the current value: every operation is chosen from
+        // the last observation of the real (borrowed) chain.  The chosen operations are recorded, so
+        // the sequence can be replayed without the generator (`replay` mode).  Operations are leaked
+        // on purpose: borrowed chunks must outlive the chain.
+        let mut chosen: Vec<&'static OpRec> = Vec::new();
+        let mut gen_op = |o: &Obs| -> Option<&'static OpRec> {
+            if chosen.len() >= steps {
+                return None;
+            }
+            let shape = &o.ch;
             let k = shape.len();
+            let total: usize = shape.iter().map(Vec::len).sum();
             // out-of-range arguments are rare (about 2% of the operations) so that sequences get long
             let oob = r.below(100) < 2;
             let opn = r.below(16);
@@ -589,17 +629,16 @@ fn random(seed: u64, count: u64, steps: usize, out: &str, prof: &str) {
                 }
                 7 => OpRec { op: "pop".into(), i: 0, x: Vec::new() },
                 8 => {
-                    let i = if oob || k == 0 { k } else { r.below(k as u64) as usize };
                     if k == 0 && !oob {
                         OpRec { op: "pop".into(), i: 0, x: Vec::new() }
                     } else {
+                        let i = if oob { k } else { r.below(k as u64) as usize };
                         OpRec { op: "remove".into(), i, x: Vec::new() }
                     }
                 }
                 9..=14 => {
                     let nm = ["split_to", "split_off", "truncate", "advance", "split_to", "split_off"][(opn - 9) as usize];
-                    let total: usize = shape.iter().map(Vec::len).sum();
-                    let i = if oob { total + 1 + r.below(3) as usize } else { pick_offset(&mut r, &shape, false) };
+                    let i = if oob { total + 1 + r.below(3) as usize } else { pick_offset(&mut r, shape, false) };
                     // keep most of the bytes most of the time so that the chain does not stay empty
                     let i = if !oob && r.below(3) > 0 {
                         match nm {
@@ -619,21 +658,15 @@ fn random(seed: u64, count: u64, steps: usize, out: &str, prof: &str) {
                     }
                 }
             };
-            rec.ops.push(op);
-            // scratch run to learn the shape the next operation is aimed at
-            let so = run_seq(&rec, prof, &mut scratch, true);
-            let last = &scratch.bodies[*so.evs.last().expect("event") as usize];
-            let v: Value = serde_json::from_str(&format!("{{{last}}}")).expect("own json");
-            shape = v["T"]["a"]["ch"].as_array().map(|a| a.iter().map(bytes_of).collect()).unwrap_or_default();
-            if so.stop != "end" {
-                break;
-            }
-            if scratch.bodies.len() > 4096 {
-                scratch = Sink::default();
-            }
-        }
+            let op: &'static OpRec = Box::leak(Box::new(op));
+            chosen.push(op);
+            Some(op)
+        };
+        let init_ref: &'static [Vec<u8>] = Box::leak(init.clone().into_boxed_slice());
         let mut sink = Sink::default();
-        let so = run_seq(&rec, prof, &mut sink, true);
+        let so = run_seq(id, init_ref, &mut gen_op, prof, &mut sink, true);
+        used += so.done.max(1);
+        let rec = SeqRec { id, init, ops: chosen.iter().map(|o| (*o).clone()).collect() };
         w.merge(sink, vec![(so, Some(&rec))]);
         nseq += 1;
     }
